@@ -334,12 +334,16 @@ pub fn gen_fe_session(t: &mut Tape, o: &FeGen) -> FeSession {
         all.push((r, s, None));
     }
     let _ = need_vpf;
+    let body_has_index_reject = body.iter().any(|(_, why)| *why == Some("queue_index"));
     for (r, why) in body {
         let mut s = server::gen_script(t, &r, o.fail_rate);
         if matches!(r, FReq::GetQueueNum) {
             // any queue count up to the protocol's maximum (0x8000) is a usable result; never
             // below MAXQ, so that later calls keep their queue indexes acceptable
-            s.val = match t.draw(4) {
+            // (a session that also makes a call with an out-of-range queue index keeps MAXQ: the
+            // index the API must refuse is defined against the count it learnt)
+            let pinned = body_has_index_reject;
+            s.val = match if pinned { 0 } else { t.draw(4) } {
                 0 => MAXQ,
                 1 => 0x8000,
                 2 => 0x7fff,
